@@ -20,7 +20,7 @@ RULE = ('caches (and FanoutCache shards) holding inline, binary-file, text-file 
 DISTINCT = ('damage_cases',)
 REQUIRED = ('spelling_relative', 'spelling_dotdot', 'single_damage_cases', 'combined_damage_cases', 'fanout_cases', 'plain_checks_compared', 'fix_then_clean',
             'items_read_after_fix', 'kinds_deleted', 'kinds_truncated', 'kinds_extended', 'kinds_unknown', 'kinds_emptydir',
-            'kinds_count', 'kinds_size', 'journal_mode_wal', 'journal_mode_truncate', 'journal_mode_persist', 'journal_mode_delete')
+            'kinds_count', 'kinds_size', 'checks_refused_under_a_held_lock', 'journal_mode_wal', 'journal_mode_truncate', 'journal_mode_persist', 'journal_mode_delete')
 ASSUMPTIONS = ('a repair may legitimately add "empty directory" warnings for directories it has just emptied',)
 
 T = 64
@@ -222,6 +222,29 @@ def _case(dc, sc, res, rng, kinds, fanout, label, spelling):
                'injected': [(w, os.path.relpath(p, d) if p else None) for w, p, _ in injected]}
         obj = dc.FanoutCache(d, shards=3) if fanout else dc.Cache(d)
         try:
+            # ---- a check that cannot lock a database says so (raises): it never hands back a partial report
+            if rng.random() < 0.3:
+                from . import c14
+                import sqlite3 as _sq
+                holder = c14.Holder([target])
+                quick = dc.FanoutCache(d, shards=3, timeout=0) if fanout else dc.Cache(d, timeout=0)
+                try:
+                    holder.take()
+                    for fix in (False, True):
+                        try:
+                            partial = observed_warnings(dc, quick.check(fix=fix))
+                        except (dc.Timeout, _sq.OperationalError):
+                            res.count('checks_refused_under_a_held_lock')
+                            continue
+                        exp_all = expected_warnings(d, injected)
+                        if [e for e in exp_all if e not in partial]:
+                            res.violation('check(fix=%s) while %s was locked by another connection returned a report without %r' % (
+                                fix, os.path.relpath(target, d) if fanout else 'the database',
+                                [(a, os.path.relpath(b, d) if b else None) for a, b in exp_all if (a, b) not in partial][:4]), wit)
+                            return
+                finally:
+                    holder.close()
+                    quick.close()
             # ---- plain check: exactly the damage, nothing changed
             t0, tb0 = tree(d), [table(sd) for sd in ([d] if not fanout else shard_dirs)]
             got = observed_warnings(dc, obj.check())
